@@ -668,6 +668,16 @@ class Interpreter:
             elif isinstance(leaf, CompoundState) and leaf.initial:
                 return MicroStep(entered_states=[leaf.initial])
 
+        # An active orthogonal state must have all its children active (some of them could be
+        # inactive if a transition targets a state nested in one of the other children).
+        names = set(names)
+        for name in sorted(names, key=lambda s: (self._statechart.depth_for(s), s)):
+            state = self._statechart.state_for(name)
+            if isinstance(state, OrthogonalState):
+                missing = [c for c in self._statechart.children_for(name) if c not in names]
+                if missing:
+                    return MicroStep(entered_states=sorted(missing))
+
         return None
 
     def _apply_step(self, step: MicroStep) -> MicroStep:
